@@ -10,7 +10,7 @@ import random
 from . import policyenv
 from .common import Machinery, Report, seed
 from .retrycheck import export_behaviours, replay_behaviours
-from .tlc import run_tlc
+from .tlc import pick_cfg, run_tlc
 from .tracecheck import tlc_validate
 
 VARIANTS = [{"entry": "Policy", "permute": False}, {"entry": "AsyncPolicy", "permute": True},
@@ -41,8 +41,7 @@ def judge(rep: Report, prop: str, traces, verdicts, origin: str) -> int:
 def check(prop: str, tier: str, rep: Report | None = None) -> Report:
     base = rep
     rep = rep or Report(prop=prop, tier=tier, level="model_checking")
-    sfx = "" if tier == "quick" else "_thorough"
-    mc_cfg, ex_cfg = f"PolicyMC_{prop}{sfx}.cfg", f"PolicyMC_{prop}x{sfx}.cfg"
+    mc_cfg, ex_cfg = pick_cfg(f"PolicyMC_{prop}", tier), pick_cfg(f"PolicyMC_{prop}x", tier)
     mc = run_tlc("PolicyMC.tla", mc_cfg, tag=f"{prop}-mc", timeout=3000)
     if not mc.ok:
         raise Machinery(f"spec-level counterexample: M violates {mc.violated} in {mc_cfg}\n"
